@@ -9,14 +9,15 @@ import gzip, json, os, re, shutil, subprocess
 import common
 
 LEAN_MODULES = ['OpusProps.C03']
-GEN = ['SilkIcdf', 'SilkSyms']
+GEN = ['SilkIcdf', 'SilkSyms', 'CeltTables']
 SOURCES = ['silk/dec_API.c', 'silk/decode_indices.c', 'silk/decode_pulses.c', 'silk/shell_coder.c', 'silk/code_signs.c',
            'silk/stereo_decode_pred.c', 'silk/NLSF_unpack.c', 'silk/decode_frame.c', 'silk/decoder_set_fs.c',
            'silk/tables_other.c', 'silk/tables_gain.c', 'silk/tables_LTP.c', 'silk/tables_pitch_lag.c',
            'silk/tables_pulses_per_block.c', 'silk/tables_NLSF_CB_NB_MB.c', 'silk/tables_NLSF_CB_WB.c', 'silk/tables.h',
            'silk/define.h', 'silk/structs.h', 'silk/control.h', 'silk/API.h', 'silk/main.h',
            'src/opus_decoder.c', 'src/opus.c', 'src/opus_compare.c', 'celt/entdec.c', 'celt/entcode.h', 'celt/entcode.c',
-           'celt/celt_decoder.c']
+           'celt/celt_decoder.c', 'celt/quant_bands.c', 'celt/laplace.c', 'celt/celt.c', 'celt/celt.h', 'celt/rate.c',
+           'celt/static_modes_float.h', 'celt/modes.c']
 WRAPPED = ['silk_Decode', 'silk_decode_indices', 'silk_decode_pulses', 'silk_stereo_decode_pred',
            'silk_stereo_decode_mid_only', 'celt_decode_with_ec', 'celt_decode_with_ec_dred',
            'ec_dec_bit_logp', 'ec_dec_uint', 'ec_dec_bits', 'ec_dec_icdf', 'ec_decode_bin', 'ec_dec_update',
@@ -26,7 +27,8 @@ WRAP = ['-Wl,' + ','.join('--wrap=' + s for s in WRAPPED)]
 REQUIRED_THEOREMS = ['OpusProps.C03.' + t for t in (
     'silkSyms_total', 'silkSyms_indices_in_range', 'silkSyms_decode_indices_in_range', 'silkSyms_tables_wellformed',
     'silkSyms_tables_frozen_eq_repo', 'silkSyms_lsb_loop_exits', 'silkSyms_pulses_fit_int16',
-    'silkSyms_symbols_history_free')]
+    'silkSyms_symbols_history_free', 'celtHdr_total_in_range', 'celtHdr_total_arbitrary_bytes',
+    'celtHdr_tables_frozen_eq_repo')]
 UNPROVED = [
     'silkSyms_lag_index_packet_bound: lagIndex in [-16, 277] for every frame of every packet. Proved: the per-call bound '
     '(absolute range or -8..+11 around the previous lag index, silkSyms_indices_in_range) and that conditional coding only ever '
@@ -35,9 +37,12 @@ UNPROVED = [
     'silkSyms_lockstep (design priority P1): the decoder model reads back exactly the symbols the mirrored encoder calls of '
     'silk_encode_indices / silk_encode_pulses wrote — a corollary of C08 (range coder) that is out of this property\'s scope; '
     'on the implementation it is searched (encoder final range == decoder final range), not proved',
-    'stage 2 (design priority P2): the CELT symbol layer (silence flag, post-filter, transient, intra, coarse energy, tf_decode, '
-    'spread, dynalloc, trim, allocation, PVQ indices) is not modelled; for hybrid frames the model stops at the range-decoder '
-    'state with which celt_decode_with_ec_dred is entered, CELT-only frames are covered by the final-range search only',
+    'stage 2 beyond the header (design priority P2): clt_compute_allocation (skip / intensity / dual-stereo symbols), fine '
+    'energy bits, the PVQ band data of quant_all_bands, anti-collapse bit and energy finalisation are not modelled; the CELT '
+    'header model stops at the arguments and decoder state with which clt_compute_allocation is entered (CELT-only, hybrid '
+    'and redundancy frames); the rest of a CELT frame is covered by the final-range search only',
+    'celtHdr for hybrid frames is proved from the invariant J of the decoder state handed over by the SILK layer; that the '
+    'SILK symbol layer preserves J is not proved (CELT-only and redundancy frames start from ec_dec_init, where J is proved)',
     'pcm_within_tolerance: the PCM clause is a statement about float DSP relative to an external reference decoder that does not '
     'exist offline; guarded by the self-reference corpus (regression oracle) only',
 ]
@@ -48,18 +53,24 @@ RULE = ('correspondence on whole packets through opus_decode: (a) arbitrary, low
         '(b) real encoder streams (VOIP/AUDIO, 6-96 kb/s, FEC+loss, DTX, stereo, forced modes, mid-stream mode/bandwidth/channel '
         'changes) decoded as is, after a simulated loss with decode_fec=1, mutated, and repacketised into padded multi-frame '
         'packets. Every decoded index, pulse, flag, stereo predictor, condCoding/FrameIndex argument, rng/ec_tell after every '
-        'silk_Decode call, redundancy frame position and the CELT entry state are compared exactly. distinct = (op, outcome) classes')
+        'silk_Decode call, redundancy frame position and the CELT entry state are compared exactly. Stage 2: for every CELT-only, '
+        'hybrid and redundancy frame every entropy-decoder call of the header (function, parameters, table, returned value) up '
+        'to clt_compute_allocation and the arguments / rng / ec_tell_frac with which that function is entered. '
+        'distinct = (op, outcome) classes')
 NOT_COVERED = [
     'PCM within the RFC 6716 tolerance of the normative reference decoder: not decidable by this technique offline (no reference '
     'decoder, no test vectors, no formal float semantics); the self-reference corpus is a regression oracle only',
-    'CELT symbol layer and everything the CELT decoder reads from the shared range decoder in hybrid frames (stage 2)',
+    'CELT symbol layer behind the frame header: bit allocation symbols, fine energy, PVQ band data, anti-collapse (stage 2 covers '
+    'the header only: silence, post-filter, transient, intra, coarse energy, tf, spread, dynalloc, trim)',
     'SILK parameter dequantisation and synthesis (C18 covers dequantisation; synthesis DSP is an oracle)',
     'fixed-point build of the tree: only the float build configured by CMake defaults is exercised',
     'decode_fec=1 with a frame_size different from the packet frame duration (the PLC prefix reads no symbols)',
 ]
 ASSUMPTIONS = [
     'the harness observes the symbol layer at the call boundaries of silk_Decode, silk_decode_indices, silk_decode_pulses, '
-    'silk_stereo_decode_pred, silk_stereo_decode_mid_only, celt_decode_with_ec and celt_decode_with_ec_dred (GNU ld --wrap); '
+    'silk_stereo_decode_pred, silk_stereo_decode_mid_only, celt_decode_with_ec, celt_decode_with_ec_dred, clt_compute_allocation '
+    'and the entropy-decoder entry points ec_dec_bit_logp / ec_dec_uint / ec_dec_bits / ec_dec_icdf / ec_decode_bin / '
+    'ec_dec_update (GNU ld --wrap); '
     'these functions must remain external symbols called across translation units',
     'x86-64, little-endian, gcc; C int arithmetic of the symbol layer modelled unbounded (range theorems show every stored '
     'index fits its C type)',
